@@ -12,7 +12,7 @@ CHECKS = {
         "exhaustive enumeration of the (erase-block, residue, position) plane + Hypothesis slot sequences against an independent CBOR walker",
         "Complete enumeration of erase-block sizes 1..512 x every slot-length residue x first/later slot through the CLI-level "
         "entry point, plus boundary residues for block sizes up to 64 KiB and generated sequences for from_payloads/merge/"
-        "from_envelope incl. duplicate-URI negatives; every output walked with the verifier's own offset-tracking CBOR reader. "
+        "from_envelope (flat and as dependency trees taken apart with --dependency-regex) incl. duplicate-URI negatives on one level and across tree levels, URIs treated as opaque keys (percent escapes, blanks, non-ASCII); every output walked with the verifier's own offset-tracking CBOR reader. "
         "Exhaustive on the stated plane, sampled beyond it.",
         "trusts vf/cborlite.py; URIs non-empty and comma-free; a ValueError for >0xFFFF padding is an allowed rejection",
         "DESIGN.md section 5 / C10",
@@ -44,8 +44,9 @@ CHECKS = {
         "complete enumeration of the vocabulary in both directions and of every name x foreign key space, against registry tables transcribed from IANA/drafts",
         "Exhaustive over the finite vocabulary (113 name/code pairs in 15 key spaces): encode direction reads the integer from created "
         "bytes, decode direction parses verifier-encoded bytes and reads the shown name, every name is offered to every other closed "
-        "key space (must be rejected with any accompanying value), tags 107/18/96 are read from created bytes and off-by-one tags "
-        "offered to parse.",
+        "key space (must be rejected with any accompanying value), the text string spelling each name is put where its integer belongs in "
+        "binary input (must be refused or shown differently), tags 107/18/96 are read from created bytes; off-by-one tags, re-tagged "
+        "authentication blocks in context and tags written with 2/4/8-byte arguments (top level and nested) are offered to parse.",
         "trusts vf/registry.py (transcription of the registries; five tool-specific codes marked) and vf/refenc.py for the decode direction",
         "DESIGN.md section 5 / C08",
     ),
@@ -96,7 +97,8 @@ CHECKS = {
         "Every invocation's four files are read back: COSE_Encrypt structure walked with the verifier's CBOR reader (tag 96, AES-GCM-256, "
         "12-byte IV, direct recipient, bstr-wrapped key id), ciphertext decrypted with `cryptography` under the published IV/protected "
         "header/tag, digest and size compared with hashlib/len, create() fed with the info as {file} and {raw}; generate-info checked for an "
-        "exact split of the supplied blob. Sequences reuse the output directory like a build directory does.",
+        "exact split of the supplied blob. Sequences reuse the output directory like a build directory does and, in the library route, ONE "
+        "Encryptor object; AES keys of every shape (hex digits, printable, white space / NUL at the ends); dotted key names beside a decoy.",
         "trusts AESGCM.decrypt, hashlib, vf/cborlite.py; aes-kw-256 judged for the split/carry clauses only",
         "DESIGN.md section 5 / C06",
     ),
@@ -132,11 +134,12 @@ CHECKS = {
     ),
     "C14": (
         "exploration",
-        "rule-based state machine over encrypt histories + multi-process storms (~1.7e5 invocations per quick run) with a union-wide pairwise-distinctness check and independent decryption under each published IV",
+        "rule-based state machine over encrypt histories + multi-process storms (~2.2e5 invocations per quick run) + fork()ed workers of a process that has already encrypted, with a union-wide pairwise-distinctness check and independent decryption under each published IV",
         "Histories interleave same/new plaintext, new Encryptor objects, script re-imports, cmd_encrypt.main and CLI processes; 14 worker "
         "processes run storms (object reused / fresh per invocation / re-imported); every IV is checked to be the one the ciphertext was "
         "produced with (independent AES-GCM) and all IVs of the run are compared pairwise in the main process. No randomness test is "
-        "applied; low-entropy IVs are reached by volume (a 32-bit-entropy IV collides with p > 0.99 per quick run).",
+        "applied; low-entropy IVs are reached by volume (a 32-bit-entropy IV collides with p > 0.99 per quick run); a parent and four forked "
+        "workers continue encrypting after fork() and must not replay copied state of the randomness source.",
         "trusts AESGCM.decrypt; distinctness only over the histories explored",
         "DESIGN.md section 5 / C14",
     ),
@@ -145,7 +148,8 @@ CHECKS = {
         "Hypothesis sequences of image update invocations in one process, both hex files read back with an independent Intel-HEX reader",
         "Sizes at Intel-HEX segment boundaries, addresses 0 / 64 KiB crossings / 16 MiB aligned / top of memory, cache counts 0..16, 1-3 "
         "invocations per process through cmd_image.main, ImageCreator and the CLI; the storage file must be exactly the LE32 record at the "
-        "info address and the partition file exactly the input bytes at the partition address.",
+        "info address and the partition file exactly the input bytes at the partition address - populated addresses are compared, so holes "
+        "count; file contents include erased (0xFF) runs and tails, zeros and text; a malformed hex file is a violation.",
         "trusts vf/ihex.py",
         "DESIGN.md section 5 / C16",
     ),
@@ -161,11 +165,12 @@ CHECKS = {
     ),
     "C15": (
         "exploration",
-        "exhaustive format product and run sequences for keys; convert on keys constructed at the coordinate boundaries (leading 0x00 / 0x04, trailing 0x00) x Hypothesis layout options, C file tokenised and compared with verifier-computed bytes",
+        "exhaustive format product, run sequences and volume series (800 pairs per NIST curve) for keys; convert on keys constructed at the coordinate boundaries (leading 0x00 / 0x04, trailing 0x00) x Hypothesis layout options, C file tokenised and compared with verifier-computed bytes",
         "keys: all 40 type/encoding/format combinations, and every ordered pair of key types as two runs into one prefix, are executed; "
-        "accepted combinations must give a loadable, matching, strictly parsed pair, refused ones the tool's error type and no files. "
+        "accepted combinations must give a loadable, matching, strictly parsed pair, refused ones an error and no files; series of random "
+        "pairs are cross-checked to reach rare keys (leading zero bits in a public coordinate). "
         "convert: private scalars are scanned until 60 boundary keys per NIST curve exist, plus random and EdDSA keys, under generated "
-        "layout options; the array body is tokenised and must equal fixed-width big-endian X||Y / the raw key, and the length variable "
+        "layout options; the array body must be a strict comma-separated initialiser list and equal fixed-width big-endian X||Y / the raw key, and the length variable "
         "must be sizeof(array). Thorough compiles samples with clang and a _Static_assert.",
         "trusts cryptography's key loading and public numbers",
         "DESIGN.md section 5 / C15",
@@ -203,7 +208,7 @@ CHECKS = {
     ),
     "C18": (
         "exploration",
-        "Hypothesis rule-based state machines over a pool of ~30 tool operations in one interpreter, differential against fresh-interpreter runs; PYTHONHASHSEED / working-directory sweep; JSON vs YAML",
+        "Hypothesis rule-based state machines over a pool of ~50 tool operations (valid ones and ones that are refused) in one interpreter, differential against fresh-interpreter runs; PYTHONHASHSEED / working-directory sweep; JSON vs YAML",
         "References are the operations run alone in fresh interpreters (PYTHONHASHSEED=0). Machines execute generated sequences with "
         "repeats, interleavings, file rewrites (references recomputed per content version), discarded mutated copies and KMS re-imports "
         "in one interpreter and compare sha256 of all output files after every step (signature / IV+ciphertext masked); every operation "
